@@ -287,15 +287,17 @@ class WorldGen:
             data = self._ak_records(sys_, mom, 3, extra, hz)
             data[r.randrange(3)] = None
             shape = [3]
-        how = r.choice(("Array", "Array", "zip", "from_raw", "from_raw_beh"))
+        how = r.choice(("Array", "Array", "zip", "from_raw", "from_raw_beh", "from_raw_globalbeh"))
         if how == "zip" and lay in ("flat", "single"):
             cols = {}
             for nm in data[0]:
                 cols[nm] = [rec[nm] for rec in data]
             lit = self.add({"f": "vecsim.lit", "a": [cols]}, be="other")
             return self.add({"f": "vector.zip", "a": [P(lit)]}, be="ak", dim=d, mom=mom, sys=sys_, shape=shape, lay=lay, extra=extra)
-        if how in ("from_raw", "from_raw_beh"):
+        if how in ("from_raw", "from_raw_beh", "from_raw_globalbeh"):
             kw = {}
+            if how == "from_raw_globalbeh":
+                kw["behavior"] = PATH("awkward.behavior")  # the user hands over the global registry itself
             if how == "from_raw_beh":
                 b = self.add({"f": "vecsim.lit", "a": [{"__userkey__": "uservalue"}]}, be="other", userbeh=True)
                 kw["behavior"] = P(b)
